@@ -69,6 +69,42 @@ func (b *gdbiBackend) put(w Write) (accepted bool, detail string, panicked bool)
 
 func (b *gdbiBackend) listGraphs() []string { return b.db.ListGraphs() }
 
+func (b *gdbiBackend) addIndex(graph, label, field string) (accepted bool, detail string, panicked bool) {
+	defer func() {
+		if r := recover(); r != nil {
+			accepted, detail, panicked = false, fmt.Sprintf("%v", r), true
+		}
+	}()
+	gi, err := b.db.Graph(graph)
+	if err != nil {
+		return false, err.Error(), false
+	}
+	if err := gi.AddVertexIndex(label, field); err != nil {
+		return false, err.Error(), false
+	}
+	return true, "", false
+}
+
+func (b *gdbiBackend) listIndices(graph string) (out []string, err error) {
+	defer func() {
+		if r := recover(); r != nil {
+			err = fmt.Errorf("PANIC: %v", r)
+		}
+	}()
+	gi, err := b.db.Graph(graph)
+	if err != nil {
+		return nil, err
+	}
+	for i := range gi.GetVertexIndexList() {
+		if i.Graph != graph {
+			out = append(out, "(graph "+i.Graph+")"+i.Label+"|"+i.Field)
+			continue
+		}
+		out = append(out, i.Label+"|"+i.Field)
+	}
+	return out, nil
+}
+
 func (b *gdbiBackend) deleteGraph(name string) {
 	defer func() { recover() }()
 	b.db.DeleteGraph(name)
